@@ -1,10 +1,50 @@
-(** Properties/C02.v — first statement; the accumulation theorems follow in Run/RecvProofs.v. *)
-From DarlingModel Require Import Run.Recv Err.ErrTree.
+(** Properties/C02.v — Every mistake in the input is reported, exactly once, in a single pass.
+    Statements only; one level of a derived parser, for every item list (see C01.v). *)
+From DarlingModel Require Import Run.Recv Run.RecvProofs Run.LoopProofs Err.ErrTree.
+Local Open Scope list_scope.
 
-(** The parser returns through exactly one place: with errors recorded it is the bundle of all
-    of them (nothing is returned early from inside the item loop). *)
 (** Pushing an error never loses the ones recorded before it. *)
 Theorem C02_push_keeps_earlier_errors :
   forall e st, exists more, ps_errs (push_err e st) = (ps_errs st ++ more)%list.
 Proof. intros e st. exists (e :: nil). reflexivity. Qed.
+
+(** The recorded errors are, item by item and in input order, what each item contributes given
+    only the items before it: a literal item; a repeat of a single-valued field; a name no field
+    addresses (unless flattened into a member or unknown fields are allowed); a value the
+    field's type rejects. *)
+Theorem C02_errors_are_per_item_contributions :
+  forall sugg sim interp_with interp_fn fields convs auk items st,
+    core_loop sugg sim interp_with interp_fn fields convs auk (state0 fields) items = Ok st ->
+    ps_errs st = spec_errs sugg sim interp_with interp_fn fields convs auk items.
+Proof.
+  intros sugg sim interp_with interp_fn fields convs auk items st H.
+  destruct (loop_is_spec sugg sim interp_with interp_fn fields convs auk items st H) as [_ [E _]]. exact E.
+Qed.
+
+(** One error per mistaken item, no more, no fewer: none is dropped because another was found
+    first, none is reported twice, none is invented. *)
+Theorem C02_one_error_per_mistaken_item :
+  forall sugg sim interp_with interp_fn fields convs auk items st,
+    core_loop sugg sim interp_with interp_fn fields convs auk (state0 fields) items = Ok st ->
+    List.length (ps_errs st) = count_mistakes sugg sim interp_with interp_fn fields convs auk nil items.
+Proof. exact loop_error_count. Qed.
+
+Theorem C02_errors_in_input_order :
+  forall sugg sim interp_with interp_fn fields convs auk a b st,
+    core_loop sugg sim interp_with interp_fn fields convs auk (state0 fields) (a ++ b) = Ok st ->
+    ps_errs st = spec_errs sugg sim interp_with interp_fn fields convs auk a
+                 ++ spec_errs_from sugg sim interp_with interp_fn fields convs auk a b.
+Proof. exact loop_errors_in_input_order. Qed.
+
+(** The pass is single and complete: the loop never returns an error from inside (the one early
+    return comes after the presence checks), so every item is looked at. *)
+Theorem C02_loop_never_returns_early :
+  forall sugg sim interp_with interp_fn fields convs auk acc item e,
+    core_step sugg sim interp_with interp_fn fields convs auk acc item = Err e -> acc = Err e.
+Proof. exact core_step_not_err. Qed.
+
 Print Assumptions C02_push_keeps_earlier_errors.
+Print Assumptions C02_errors_are_per_item_contributions.
+Print Assumptions C02_one_error_per_mistaken_item.
+Print Assumptions C02_errors_in_input_order.
+Print Assumptions C02_loop_never_returns_early.
